@@ -6,7 +6,7 @@
 //! still evaluates a sanity program afterwards.
 
 use crate::framework::*;
-use crate::hashseed::{guarded, on_fresh_thread_with_stack, ThreadOutcome};
+use crate::hashseed::{guarded, on_fresh_thread_with_deadline, ThreadOutcome};
 use crate::rng::{fnv64, Rng};
 use ruschm::interpreter::Interpreter;
 use ruschm::values::Value as RValue;
@@ -94,22 +94,34 @@ fn pick_world(rng: &mut Rng) -> (Vec<(String, Vec<u8>)>, String) {
             (vec![("main.scm".into(), main.into_bytes())], "repo:grammar.sld-as-program".into())
         }
         5 | 6 | 7 => {
-            // a fault-free history of engine A as one program file
-            let sub = crate::engine_a::generate_a(rng.next_u64(), true, false);
+            // a history of engine A as one program file: fault-free, or with its fault
+            // transactions (valid programs that run into run-time errors; the host procedures
+            // become two ordinary definitions)
+            let with_faults = rng.chance(1, 2);
+            let sub = crate::engine_a::generate_a(rng.next_u64(), true, with_faults);
             let mut text = String::from("(import (scheme base) (scheme write))\n");
+            if with_faults {
+                text.push_str("(define (sim-note k) k)\n(define (sim-flip k) #t)\n");
+            }
             for f in sub["forms"].as_array().cloned().unwrap_or_default() {
                 text.push_str(f["t"].as_str().unwrap_or(""));
                 text.push('\n');
             }
-            (vec![("main.scm".into(), text.into_bytes())], "engine-a-history".into())
+            (vec![("main.scm".into(), text.into_bytes())], if with_faults { "engine-a-history-with-faults".into() } else { "engine-a-history".into() })
         }
         8 | 9 => {
             // a library world of engine B with its program
             let sub = crate::engine_b::generate_c13(rng.next_u64(), true);
             let mut files = vec![];
             for l in sub["libs"].as_array().cloned().unwrap_or_default() {
+                if l["native"].as_bool().unwrap_or(false) {
+                    continue;
+                }
                 files.push((
-                    format!("lib/{}.sld", l["short"].as_str().unwrap_or("x")),
+                    match l["file"].as_str() {
+                        Some(f) => format!("lib/{}", f),
+                        None => format!("lib/{}.sld", l["short"].as_str().unwrap_or("x")),
+                    },
                     crate::engine_b::lib_source(&l).into_bytes(),
                 ));
             }
@@ -140,6 +152,7 @@ const FAULT_KINDS: &[&str] = &[
     "dangling-symlink",
     "drop-byte",
     "insert-byte",
+    "insert-two-bytes",
     "insert-multibyte-char",
     "append-other-file",
     "written-twice",
@@ -223,6 +236,20 @@ fn damage(rng: &mut Rng, bytes: &mut Vec<u8>, kind: &str, other: &[u8]) {
             let at = rng.upto(n + 1);
             let b = *rng.pick(b"()#\\'\".;|0123456789/e+- \n\xff\x00");
             bytes.insert(at, b);
+        }
+        "insert-two-bytes" => {
+            // two stray bytes next to each other (they may form a token of their own)
+            let at = rng.upto(n + 1);
+            let alphabet = b"()#\\'\".;|0123456789/e+- \n\xff\x00";
+            let (b1, b2) = if rng.chance(1, 3) {
+                // biased towards pairs that open or close something in the reader
+                let pair = *rng.pick(&[b"#|", b"|#", b"#;", b",@", b"#\\", b"#(", b"'(", b"\"\\", b"#!", b"#d", b"#e", b"1/", b"-."]);
+                (pair[0], pair[1])
+            } else {
+                (*rng.pick(alphabet), *rng.pick(alphabet))
+            };
+            bytes.insert(at, b2);
+            bytes.insert(at, b1);
         }
         _ => {}
     }
@@ -539,11 +566,26 @@ impl Engine for EngineD {
     fn execute(&self, case: &Value) -> RunResult {
         let hash_seed = case["hash_seed"].as_u64().unwrap_or(1);
         let c = case.clone();
-        match on_fresh_thread_with_stack(hash_seed, 32, move || execute_d(c)) {
-            ThreadOutcome::Done(r) => r,
-            ThreadOutcome::Panicked(p) => {
+        // evaluation is bounded by the step budget (well under a second of work); the only
+        // way past the deadline is reading or expanding that never ends - which the property
+        // rules out just like a panic
+        let secs: u64 = std::env::var("VERIF_HANG_SECS").ok().and_then(|s| s.parse().ok()).unwrap_or(45);
+        match on_fresh_thread_with_deadline(hash_seed, 32, secs, move || execute_d(c)) {
+            Some(ThreadOutcome::Done(r)) => r,
+            Some(ThreadOutcome::Panicked(p)) => {
                 let mut r = RunResult::default();
                 r.invalid = Some(format!("harness panic: {} at {}:{}", p.message, p.file, p.line));
+                r
+            }
+            None => {
+                let mut r = RunResult::default();
+                r.log.push(format!("origin={} mode={}: no result after {} s although evaluation is limited to a step budget", case["origin"], case["mode"], secs));
+                r.violation = Some(Violation {
+                    signature: "C07/reading-or-expanding-does-not-terminate".into(),
+                    detail: json!({"origin": case["origin"], "mode": case["mode"], "faults": case["faults"], "waited_s": secs}),
+                });
+                // the busy thread cannot be stopped: this process must be replaced
+                r.aux.push("RETIRE-WORKER".into());
                 r
             }
         }
@@ -625,7 +667,7 @@ impl Engine for EngineD {
         out
     }
     fn rule(&self) -> String {
-        "seeded worlds of valid sources (the repository's 7 example/test programs, the bundled base.sld as a user library, the bundled derived-form definitions as a program, fault-free histories of engine A, library worlds of engine B) hit by 1-3 storage faults on the program file or one library file (truncation at any byte, 1-3 bit flips, zeroed / duplicated / transposed 512-, 64- or 16-byte sector, stale tail from another file, BOM, directory / empty / dangling symlink in place of the file, dropped byte, inserted byte from a token-boundary alphabet), then used through Interpreter::eval_file (3/4) or eval of the lossily decoded text (1/4) on a fresh interpreter under a budget of 200000 evaluation steps and depth 1500, followed by four sanity forms on the same interpreter. distinct = hash of the damaged bytes; non-trivial = the damaged world did not simply evaluate as if undamaged and was not refused before reading".into()
+        "seeded worlds of valid sources (the repository's 7 example/test programs, the bundled base.sld as a user library, the bundled derived-form definitions as a program, fault-free histories of engine A, library worlds of engine B) hit by 1-3 storage faults on the program file or one library file (truncation at any byte, 1-3 bit flips, zeroed / duplicated / transposed 512-, 64- or 16-byte sector, stale tail from another file, BOM, directory / empty / dangling symlink in place of the file, dropped byte, one or two inserted bytes from a token-boundary alphabet, whole-file duplication faults), then used through Interpreter::eval_file (3/4) or eval of the lossily decoded text (1/4) on a fresh interpreter under a budget of 200000 evaluation steps and depth 1500, followed by four sanity forms on the same interpreter. distinct = hash of the damaged bytes; non-trivial = the damaged world did not simply evaluate as if undamaged and was not refused before reading".into()
     }
     fn assumptions(&self) -> Vec<String> {
         vec![
